@@ -332,11 +332,21 @@ func c06r4(r *R) {
 			if !strings.HasPrefix(arg, `fmt.Sprintf("%s:%d"`) || !portArg(&p, "443") {
 				why = append(why, "https without port: looked up "+arg)
 			}
+		case tableLookup(&p) != "":
+			// the default ports kept in a package-level map keyed by scheme: its entries are the specification's
+			tab := tableLookup(&p)
+			ents, ok := globalIntMap(r, tab)
+			if !ok || len(ents) != 2 || ents["http"] != 80 || ents["https"] != 443 {
+				why = append(why, fmt.Sprintf("default ports come from the table %s = %v, expected http→80 and https→443 only", tab, ents))
+			}
+			if !strings.HasPrefix(arg, `fmt.Sprintf("%s:%d"`) {
+				why = append(why, "scheme found in the table: looked up "+arg)
+			}
 		default:
 			why = append(why, "unknown scheme is looked up as "+arg)
 		}
 	}
-	r.check(n >= 3 && len(why) == 0, "CredentialsMatcher.MatchURL#default-ports", mu.Pos(), "explicit port kept; http→80, https→443; other schemes without a port match nothing", strings.Join(why, "; "))
+	r.check(n >= 2 && len(why) == 0, "CredentialsMatcher.MatchURL#default-ports", mu.Pos(), "explicit port kept; http→80, https→443; other schemes without a port match nothing", strings.Join(why, "; "))
 }
 
 // portArg reports whether the variadic arguments of the Sprintf on this path end with the given port literal.
@@ -413,4 +423,75 @@ func c06r5(r *R) {
 		}
 	}
 	r.check(n > 0 && len(why) == 0, "pacProxy#credentials", pp.Pos(), "PAC-selected proxy gets the matching credentials entry (none under Kerberos)", strings.Join(dedupStrings(why), "; "))
+}
+
+// tableLookup: the path holds a successful comma-ok lookup of the URL's scheme in a package-level map; returns
+// the map's printed name ("" otherwise).
+func tableLookup(p *Path) string {
+	for _, c := range p.Conds {
+		if strings.HasPrefix(c, "!") || !strings.HasSuffix(c, "[$1.Scheme]#1") {
+			continue
+		}
+		return strings.TrimSuffix(c, "[$1.Scheme]#1")
+	}
+	return ""
+}
+
+// globalIntMap reads a package-level map[string]int that is built once, by the package initialiser, from constants.
+func globalIntMap(r *R, printed string) (map[string]int64, bool) {
+	i := strings.LastIndex(printed, ".")
+	if i < 0 {
+		return nil, false
+	}
+	pkg := r.pkg(map[bool]string{true: ".", false: printed[:i]}[printed[:i] == "forwarder"])
+	g, ok := pkg.Members[printed[i+1:]].(*ssa.Global)
+	if !ok {
+		return nil, false
+	}
+	init := pkg.Func("init")
+	if init == nil {
+		return nil, false
+	}
+	var mk ssa.Value
+	stores := 0
+	for _, m := range pkg.Members {
+		if f, ok := m.(*ssa.Function); ok {
+			for _, ff := range withClosures(f) {
+				for _, b := range ff.Blocks {
+					for _, ins := range b.Instrs {
+						switch x := ins.(type) {
+						case *ssa.Store:
+							if x.Addr == ssa.Value(g) {
+								stores++
+								if ff == init {
+									mk = x.Val
+								}
+							}
+						case *ssa.MapUpdate:
+							if ld, ok := x.Map.(*ssa.UnOp); ok && ld.X == ssa.Value(g) {
+								return nil, false // updated after it was built
+							}
+						}
+					}
+				}
+			}
+		}
+	}
+	if stores != 1 || mk == nil {
+		return nil, false
+	}
+	out := map[string]int64{}
+	for _, b := range init.Blocks {
+		for _, ins := range b.Instrs {
+			if mu, ok := ins.(*ssa.MapUpdate); ok && mu.Map == mk {
+				k, ok1 := constString(mu.Key)
+				v, ok2 := constInt(mu.Value)
+				if !ok1 || !ok2 {
+					return nil, false
+				}
+				out[k] = v
+			}
+		}
+	}
+	return out, true
 }
